@@ -678,6 +678,7 @@ def bulk_helpers(prog: Program, rep: Report):
         src = [(n, var) for n, var, val in a.stores() if val is not None and a.sym.term(val, n)[:2] == (
             "call", ("global", f"{f.module.name}.getall"))]
         items = src[0][1] if src else None
+        item_vars = {v_ for _, v_ in src}  # (copies of the loaded value count as the loaded value)
         ok = items is not None
         bad_ret = None
         for n, t in a.returns():
@@ -686,7 +687,24 @@ def bulk_helpers(prog: Program, rep: Report):
                 ok, bad_ret = False, "bare return"
                 continue
             used = {y.id for y in ast.walk(rv) if isinstance(y, ast.Name)}
-            if items not in used:
+            # through conversion temporaries (helpers inlined): names the returned value is computed from
+            work_, depth_ = [(y_, n) for y_ in used], 0
+            seen_ = set(used)
+            while work_ and depth_ < 200:
+                depth_ += 1
+                nm_, at_ = work_.pop()
+                for d_ in a.cfg.reaching().get(at_, {}).get(nm_, ()):
+                    v_ = a.cfg.def_value(d_, nm_) if a.cfg.nodes[d_].kind != "entry" else None
+                    if v_ is not None:
+                        for y_ in ast.walk(v_):
+                            if isinstance(y_, ast.Name) and y_.id not in seen_:
+                                seen_.add(y_.id)
+                                work_.append((y_.id, d_))
+            used = seen_
+            raw_ = a.cfg.nodes[n].ast.value if isinstance(a.cfg.nodes[n].ast, ast.Return) else None
+            if isinstance(raw_, ast.Name) and raw_.id in item_vars:
+                continue  # the loaded items themselves
+            if not (item_vars & used):
                 ok, bad_ret = False, f"returns {ast.unparse(rv)[:60]}, which is not derived from the loaded items"
         rep.decide(ok, "G9.bulk-fallback", f, "returns-items", "every return is (a conversion of) getall(dataset, item)",
                    f"{name}: {bad_ret or 'items are not obtained from getall(dataset, item)'}", clause="C02.4")
